@@ -1,12 +1,18 @@
 #!/bin/sh
-# setup_cmd: build the framework from files on disk only (offline).
-set -e
+# setup_cmd: build the framework from files on disk only (offline). Every check rebuilds what it
+# needs itself; this only warms the caches, so a failure of one property's build is not fatal here
+# (it is reported by that property's check).
 cd "$(dirname "$0")"
 export GOFLAGS=-mod=mod GOPROXY=off GOSUMDB=off GOTOOLCHAIN=local CGO_ENABLED=0
 mkdir -p out evidence
-(cd extract && go build -o bin/extract .)
+(cd extract && go build -o bin/extract .) || echo "setup: extractor build failed"
 ./extract/bin/extract -repo /repo -lean lean/TarsModel/Generated/Consts.lean -fp out/fingerprints.json || true
-(cd lean && lake build TarsModel $(grep -A1 'lean_exe' lakefile.toml | sed -n 's/^name = "\(.*\)"/\1/p'))
 cp /repo/go.sum harness/go.sum
-(cd harness && for d in cmd/*/; do n=$(basename "$d"); go build -tags verif -o "bin/$n" "./cmd/$n"; done)
+for cfg in checks/C*.json; do
+  props=$(python3 -c "import json,sys;c=json.load(open('$cfg'));print(c['lean_props'], c['model_exe'])")
+  (cd lean && lake build $props) || echo "setup: lean build failed for $cfg"
+  for h in $(python3 -c "import json;c=json.load(open('$cfg'));h=c['harness'];print(' '.join(h if isinstance(h,list) else [h]))"); do
+    (cd harness && go build -tags verif -o "bin/$h" "./cmd/$h") || echo "setup: harness build failed for $h"
+  done
+done
 echo setup-ok
